@@ -2,7 +2,7 @@
 
 1. TLC explores QuantityHeap.tla (a heap of Magnitude cells, BaseUnits cells, exponent dicts and Quantity objects
    holding REFERENCES; one action per public operation passing the references the code passes) in lock step with
-   QuantityIdeal.tla (value semantics) over all histories of a bounded shape from 14 initial configurations
+   QuantityIdeal.tla (value semantics) over all histories of a bounded shape from 16 initial configurations
    (same unit / other unit of one dimension / three units / dB levels / Decimal / array / uncertain / angles /
    dimensionless / different dimensions):
      a. Fixed = AllDevs  : invariants Frame, NoShare, SameObjects and the action property Immutable hold
